@@ -93,6 +93,41 @@ theorem lookup_ascii (g : Name) (c : CName) (h : lookupName g = some c) : ∀ ch
   · omega
   · split at this <;> omega
 
+/-- the first bytes of a text starting with `@c` in the BOM-less wide encodings -/
+def patHead : Kind → List Nat
+  | .u16le => [0x40, 0, 0x63, 0]
+  | .u16be => [0, 0x40, 0, 0x63]
+  | .u32le => [0x40, 0, 0, 0, 0x63, 0, 0, 0]
+  | .u32be => [0, 0, 0, 0x40, 0, 0, 0, 0x63]
+  | _ => []
+
+/-- the name the detector answers for these byte patterns -/
+def patName : Kind → Name
+  | .u16le => Enc.utf16le.name
+  | .u16be => Enc.utf16be.name
+  | .u32le => Enc.utf32le.name
+  | .u32be => Enc.utf32be.name
+  | _ => []
+
+theorem encScan_at_c (k : Kind) (hk : k = .u16le ∨ k = .u16be ∨ k = .u32le ∨ k = .u32be) (tl : List Nat) :
+    encScan k (0x40 :: 0x63 :: tl) = (patHead k ++ (encScan k tl).1, (encScan k tl).2) := by
+  rcases hk with rfl | rfl | rfl | rfl
+  · simp [encScan, Kind.encUnit, encUnit16, bytes16, patHead]
+  · simp [encScan, Kind.encUnit, encUnit16, bytes16, patHead]
+  · simp [encScan, Kind.encUnit, encUnit32, patHead]
+  · simp [encScan, Kind.encUnit, encUnit32, patHead]
+
+/-- rewriting the `@charset` name leaves the first two characters `@c` alone -/
+theorem fixFinal_head (tl g : List Nat) : ∃ tl', fixFinal (0x40 :: 0x63 :: tl) g = 0x40 :: 0x63 :: tl' := by
+  unfold fixFinal
+  split
+  · split
+    · split
+      · exact ⟨_, by simp [prefix10]; rfl⟩
+      · exact ⟨_, rfl⟩
+    · exact ⟨_, rfl⟩
+  · exact ⟨_, rfl⟩
+
 /-- the name the detector answers for a BOM -/
 def detected : CName → Name
   | .u8sig => Enc.utf8sig.name
